@@ -77,14 +77,15 @@ def srt_strategy(tier):
         cues = [{"a": a, "b": b, "nl": draw(st.integers(1, 2))} for a, b in pairs]
         return {"fmt": "srt", "reuse": draw(st.integers(0, 3)) == 0, "cues": cues, "lang": draw(st.sampled_from([None, "en-US", "fr"])),
                 "eol": draw(st.sampled_from(["\n", "\n", "\r\n"])),
-                "trail": draw(st.integers(0, 3))}
+                "trail": draw(st.integers(0, 3)),
+                "between": draw(st.lists(st.sampled_from([1, 1, 1, 2, 3]), min_size=1, max_size=4))}
     return build()
 
 
 def check_srt(case, rec):
     cues = [(T.text(c["a"], ","), T.text(c["b"], ","), [f"cue {i} line {k}" for k in range(c["nl"])])
             for i, c in enumerate(case["cues"])]
-    doc = S.srt_doc(cues, case["eol"], case["trail"])
+    doc = S.srt_doc(cues, case["eol"], case["trail"], between=case.get("between"))
     with must("SRTReader.read"):
         r = _reader(SRTReader, "srt", case, rec)
         cs = r.read(doc, lang=case["lang"]) if case["lang"] else r.read(doc)
